@@ -2,12 +2,31 @@
    Directives: ExtrOcamlBasic only (bool, option, list, prod, unit, sumbool -> OCaml natives);
    N, Z, positive stay Coq datatypes. *)
 From Coq Require Extraction ExtrOcamlBasic.
-From Schwifty Require Import Lib.Base Lib.Regex Model.Clean Model.Data Model.Iban Model.Bic Model.Bban Model.Registry Model.Lookup Model.National Model.Algorithms Lib.Json.
-From Schwifty Require Import Gen.Env Gen.IbanData Gen.IbanCfg Gen.BicCfg Gen.ChecksumCfg.
-From Schwifty Require Import Spec.Iso13616 Spec.Iso9362 Spec.Defects Spec.RegistrySpec Spec.NationalPublished.
+From Schwifty Require Import Lib.Base Lib.Regex Model.Clean Model.Data Model.Iban Model.Bic Model.Bban Model.Registry Model.Lookup Model.National Model.Algorithms Model.Germany Lib.Json.
+From Schwifty Require Import Gen.Env Gen.IbanData Gen.IbanCfg Gen.BicCfg Gen.ChecksumCfg Gen.GermanyTbl.
+From Schwifty Require Import Spec.Iso13616 Spec.Iso9362 Spec.Defects Spec.RegistrySpec Spec.NationalPublished Spec.Bundesbank.
+From Coq Require Import String Ascii.
 
-Definition german_stub (cls : text) (accepts : list text) : option algo := None.
-Definition x_find_algo := find_algo the_env nd_runs (ic_alphabet the_iban_cfg) registered german_stub.
+Definition x_german := german_class nd_runs german_table account_code_length.
+Definition x_find_algo := find_algo the_env nd_runs (ic_alphabet the_iban_cfg) registered x_german.
+Definition x_algo_validate (key : text) (components : list text) (expected : text) : outcome bool :=
+  match assoc key registered with
+  | Some (cls, accepts) =>
+    match (match national_class the_env nd_runs (ic_alphabet the_iban_cfg) cls accepts with Some a => Some a | None => x_german cls accepts end) with
+    | Some al => al_validate al components expected
+    | None => Crash PKeyError
+    end
+  | None => Crash PKeyError
+  end.
+Definition x_algo_compute (key : text) (components : list text) : outcome text :=
+  match assoc key registered with
+  | Some (cls, accepts) =>
+    match (match national_class the_env nd_runs (ic_alphabet the_iban_cfg) cls accepts with Some a => Some a | None => x_german cls accepts end) with
+    | Some al => al_compute al components
+    | None => Crash PKeyError
+    end
+  | None => Crash PKeyError
+  end.
 Definition x_national (R : banks) := validate_national the_table x_find_algo (bank_code_entries R).
 
 Definition x_clean := clean the_env.
@@ -80,10 +99,17 @@ Definition s_wf_bank (en : entry) : bool := wf_bank the_table iso3166 en.
 Definition s_wf_country (cc : text) : bool :=
   match find_row the_table cc with Some r => wf_country r | None => false end.
 
+Fixpoint t2s (t : text) : string :=
+  match t with [] => EmptyString | c :: r => String (ascii_of_N c) (t2s r) end.
+(* verdict of the Bundesbank spec on a ten-character account; None: not ten ASCII digits / method not in the spec *)
+Definition s_bb (m : text) (account : text) : option bool :=
+  if (Nat.eqb (List.length account) 10 && forallb is_ascii_digit account)%bool
+  then bb_accept (t2s m) (map (fun c => Z.of_N (c - 48)) account) else None.
+
 Extraction Language OCaml.
 Set Extraction KeepSingleton.
 Extraction "extract/model.ml"
-  x_clean x_iban_new x_iban_validate x_iban_is_valid x_iban_from_bban x_iban_formatted x_national x_from_components x_generate s_published_ok s_has_published
+  x_clean x_iban_new x_iban_validate x_iban_is_valid x_iban_from_bban x_iban_formatted x_national x_from_components x_generate s_published_ok s_has_published x_algo_validate x_algo_compute s_bb
   x_pat_apply x_chars_pat x_chars_method x_format_method x_row_regex
   s_iso_ok s_check_digits s_conforms
   x_bic_new x_bic_validate x_bic_is_valid x_bic_formatted x_bic_parts x_bic_pat s_iso9362_ok s_iban_verdict s_bic_verdict
